@@ -85,3 +85,25 @@ Proof. unfold hermite. split; ring. Qed.
 
 Lemma amps_at_unit_flux an : amps_interp an 1 = an.
 Proof. unfold amps_interp. ring. Qed.
+
+(* In Fourier space: the component the hybrid renderer evaluates in real space has, as its transform, the Fourier renderer's
+   component times the transfer function exp(-2 pi^2 s^2 |f|^2) of a circular Gaussian PSF of width s *)
+Lemma hybrid_component_is_fourier_times_gaussian_psf FX FY a sigma s xc yc t e : 0 < sigma ->
+  gauss_fourier_logamp FX FY a (sigma_obs sigma s) xc yc t (q_obs e sigma s)
+  = gauss_fourier_logamp FX FY a sigma xc yc t (1 - e) + - (2 * PI * PI * (s * s)) * (FX * FX + FY * FY).
+Proof.
+  intros Hs. pose proof (sigma_obs_sq sigma s) as H1. pose proof (q_obs_sq e sigma s Hs) as H2.
+  unfold gauss_fourier_logamp.
+  set (c := cos (t + PI / 2)). set (sn := sin (t + PI / 2)).
+  assert (H3 : sn * sn + c * c = 1).
+  { pose proof (sin2_cos2 (t + PI / 2)) as H. unfold Rsqr in H. exact H. }
+  set (so := sigma_obs sigma s) in *. set (qo := q_obs e sigma s) in *.
+  set (u := FX * c + FY * sn). set (v := -1 * FX * sn + FY * c).
+  replace (-1 * (u * u + v * v * qo * qo) * (2 * PI * PI * so * so))
+    with (- (2 * PI * PI) * (u * u * (so ^ 2) + v * v * (qo ^ 2 * so ^ 2))) by ring.
+  rewrite H2, H1.
+  replace (FX * FX + FY * FY) with (u * u + v * v).
+  - ring.
+  - unfold u, v. replace ((FX * c + FY * sn) * (FX * c + FY * sn) + (-1 * FX * sn + FY * c) * (-1 * FX * sn + FY * c))
+      with ((FX * FX + FY * FY) * (sn * sn + c * c)) by ring. rewrite H3. ring.
+Qed.
